@@ -44,6 +44,9 @@ Step ==
      IF e.e = "fin" THEN
         \* a block whose date has been reached cannot still be open when the run ends normally
         (IF e.ok /\ \E s \in Ids : sdue[s].on /\ sdue[s].due <= now THEN Fail("C01.until_date_missed") /\ now' = now
+         \* the run was killed by an internal error of the framework while timed waits were pending: they never resume
+         ELSE IF ~e.ok /\ e.out.k = "exc" /\ e.out.internal /\ \E b \in Ids : beg[b].on /\ ~beg[b].never
+              THEN Fail("C01.timed_wait_killed") /\ now' = now
          ELSE UNCHANGED <<now, beg, due, bad>>)
      \* an until(date) block ends no later than its date
      ELSE IF F(e, "blk", "") = "scope" /\ op \in {"leave", "body"} /\ e.e \in {"r", "x", "u"} /\ e.id \in Ids
